@@ -54,6 +54,12 @@ def gen(rng, tier, quarantine=()):
                 focus = rng.choice([PLAIN[F["attr"]], "p"])
             else:
                 lv["recv_path"] = F["cls_paths"][0]
+        if lv["fn"] == fam and focus != "#enter":
+            # context captures, among them the receiver parameter named explicitly
+            if rng.random() < 0.3 and focus != F["param"]:
+                lv["caps"].append({"var": F["param"], "as": F["param"]})
+            if rng.random() < 0.2 and focus not in ("p",) and not F.get("property"):
+                lv["caps"].append({"var": "p", "as": "p"})
         sel = {"levels": [lv], "focus": {"var": focus, "as": "foc" if focus.startswith("#") else focus}}
         ops.append({"op": "mk", "id": f"p{i}", "sels": [sel], "inv": "C13.receiver", "style": rng.randrange(2)})
     pending = [f"p{i}" for i in range(nprobes)]
